@@ -2,9 +2,11 @@
    generators, open_array() contexts, element reads and writes.  Follows Array._open_array
    (after the user-counting fix): whoever finds no map opens one; every user increments a
    counter on entry and decrements it on exit; the LAST one closes map and file.  When the
-   length changes while the array is open (append / truncate inside a context) the map is
-   renewed.
-   Touching a closed map is the outcome OCrash.  No proofs. *)
+   length changes while the array is open (append / truncate inside a context or while a
+   generator runs) the map is renewed, and generators read every chunk through the object's
+   CURRENT map (so a chunk is clipped to the current length).
+   Every map knows the length it was made for.  Reading through a closed map, or through a map
+   beyond the present end of the file (SIGBUS), is the outcome OCrash.  No proofs. *)
 From Coq Require Import ZArith List Bool.
 From Darr Require Import Base Gen_frames.
 Import ListNotations.
@@ -15,17 +17,20 @@ Definition contents := list (Z * Z).
 Fixpoint cget (c : contents) (i : Z) : Z :=
   match c with [] => i | (j, v) :: t => if j =? i then v else cget t i end.
 Definition cset (c : contents) (i v : Z) : contents := (i, v) :: c.
+(* the length becomes n: what was written at or beyond n is gone (an element appended later
+   holds its index again) *)
+Definition ctrunc (c : contents) (n : Z) : contents := filter (fun p => fst p <? n) c.
 
 (* iterchunks parameters: chunklen, stepsize, startindex, endindex, include_remainder *)
 Definition gparams := (Z * option Z * option Z * option Z * bool)%type.
 Inductive gstate :=
 | GNew (p : gparams)                           (* created, not yet advanced: nothing has run *)
-| GActive (map : nat) (rest : list (Z * Z))    (* inside `with _open_array()`, holding map *)
+| GActive (rest : list (Z * Z))               (* inside `with _open_array()`; reads through self._memmap *)
 | GDone.
 
 Record sched := mkSched {
   sc_cache : option nat;        (* self._memmap: id of the cached map *)
-  sc_open : list nat;           (* maps (and their file handles) that are open *)
+  sc_open : list (nat * Z);     (* maps (and their file handles) that are open, with their mapped length *)
   sc_next : nat;                (* fresh map id *)
   sc_users : nat;               (* self._memmapusers *)
   sc_gens : list gstate;        (* generators, by index *)
@@ -57,17 +62,17 @@ Inductive outcome :=
 | ORaise                               (* ValueError from iterindices etc. *)
 | OCrash.
 
-Fixpoint mem_nat (x : nat) (l : list nat) : bool :=
-  match l with [] => false | y :: t => Nat.eqb x y || mem_nat x t end.
-Fixpoint remove_nat (x : nat) (l : list nat) : list nat :=
-  match l with [] => [] | y :: t => if Nat.eqb x y then remove_nat x t else y :: remove_nat x t end.
+Fixpoint map_len (x : nat) (l : list (nat * Z)) : option Z :=
+  match l with [] => None | (y, n) :: t => if Nat.eqb x y then Some n else map_len x t end.
+Fixpoint remove_nat (x : nat) (l : list (nat * Z)) : list (nat * Z) :=
+  match l with [] => [] | (y, n) :: t => if Nat.eqb x y then remove_nat x t else (y, n) :: remove_nat x t end.
 
 (* entering _open_array *)
 Definition acquire (s : sched) : nat * sched :=
   match sc_cache s with
   | Some m => (m, mkSched (Some m) (sc_open s) (sc_next s) (S (sc_users s)) (sc_gens s) (sc_ctx s) (sc_data s) (sc_len s))
   | None => let m := sc_next s in
-            (m, mkSched (Some m) (m :: sc_open s) (S m) (S (sc_users s)) (sc_gens s) (sc_ctx s) (sc_data s) (sc_len s))
+            (m, mkSched (Some m) ((m, sc_len s) :: sc_open s) (S m) (S (sc_users s)) (sc_gens s) (sc_ctx s) (sc_data s) (sc_len s))
   end.
 (* leaving it: the last user closes *)
 Definition release (s : sched) : sched :=
@@ -87,19 +92,12 @@ Definition set_ctx (s : sched) (c : list nat) : sched :=
 Definition set_data (s : sched) (c : contents) : sched :=
   mkSched (sc_cache s) (sc_open s) (sc_next s) (sc_users s) (sc_gens s) (sc_ctx s) c (sc_len s).
 
-Definition set_open (s : sched) (o : list nat) : sched :=
-  mkSched (sc_cache s) o (sc_next s) (sc_users s) (sc_gens s) (sc_ctx s) (sc_data s) (sc_len s).
-
-(* which generators still hold (a reference to) map m *)
-Definition holds_b (m : nat) (g : gstate) : bool := match g with GActive m' _ => Nat.eqb m' m | _ => false end.
-Definition held (m : nat) (gens : list gstate) : bool := existsb (holds_b m) gens.
-
-(* a finished generator drops its reference to map m; a map that is neither the cached one nor
-   held by another generator is closed with it (reference counting).  Maps other than the cached
-   one exist only after the length changed while the array was open (AResize). *)
-Definition drop_ref (s : sched) (m : nat) : sched :=
-  if (match sc_cache s with Some c => Nat.eqb c m | None => false end) || held m (sc_gens s) then s
-  else set_open s (remove_nat m (sc_open s)).
+(* reading elements [.., hi) through the object's current map: the map must be open, and what is
+   touched (NumPy clips a slice to the mapped length) must lie within the file as it is NOW *)
+Definition cur_maplen (s : sched) : option Z :=
+  match sc_cache s with Some m => map_len m (sc_open s) | None => None end.
+Definition read_ok (s : sched) (hi : Z) : bool :=
+  match cur_maplen s with Some L => Z.min hi L <=? sc_len s | None => false end.
 
 Fixpoint replace_nth {A} (n : nat) (x : A) (l : list A) : list A :=
   match l, n with
@@ -112,14 +110,17 @@ Fixpoint replace_nth {A} (n : nat) (x : A) (l : list A) : list A :=
 Definition chunk_obs (c : contents) (a b : Z) : list Z :=
   if a <? b then [cget c a; cget c ((a + b) / 2); cget c (b - 1)] else [].
 
-(* advancing an active generator: read the next frame through its map, or finish *)
-Definition advance_active (s : sched) (g : nat) (m : nat) (rest : list (Z * Z)) : outcome * sched :=
+(* advancing an active generator: read the next frame through the current map (clipped to its
+   length), or finish *)
+Definition advance_active (s : sched) (g : nat) (rest : list (Z * Z)) : outcome * sched :=
   match rest with
   | (a, b) :: rest' =>
-      if mem_nat m (sc_open s)
-      then (OChunk a b (chunk_obs (sc_data s) a b), set_gens s (replace_nth g (GActive m rest') (sc_gens s)))
+      if read_ok s b
+      then let L := match cur_maplen s with Some L => L | None => 0 end in
+           (OChunk (Z.min a L) (Z.min b L) (chunk_obs (sc_data s) (Z.min a L) (Z.min b L)),
+            set_gens s (replace_nth g (GActive rest') (sc_gens s)))
       else (OCrash, s)
-  | [] => (OStop, drop_ref (release (set_gens s (replace_nth g GDone (sc_gens s)))) m)
+  | [] => (OStop, release (set_gens s (replace_nth g GDone (sc_gens s))))
   end.
 
 Definition sched_step (s : sched) (a : action) : outcome * sched :=
@@ -133,17 +134,17 @@ Definition sched_step (s : sched) (a : action) : outcome * sched :=
       | Some (GNew (c, so, sto, eno, fl)) =>
           let '(m, s1) := acquire s in
           match iterindices (sc_len s1) c so sto eno fl with
-          | Ok frames => advance_active (set_gens s1 (replace_nth g (GActive m frames) (sc_gens s1))) g m frames
+          | Ok frames => advance_active (set_gens s1 (replace_nth g (GActive frames) (sc_gens s1))) g frames
           | Err _ => (* enters _open_array, iterindices raises, the with block is left again *)
               (ORaise, release (set_gens s1 (replace_nth g GDone (sc_gens s1))))
           end
-      | Some (GActive m rest) => advance_active s g m rest
+      | Some (GActive rest) => advance_active s g rest
       | Some GDone => (OStop, s)
       | None => (ONothing, s)
       end
   | AClose g =>
       match nth_error (sc_gens s) g with
-      | Some (GActive m _) => (ONothing, drop_ref (release (set_gens s (replace_nth g GDone (sc_gens s)))) m)
+      | Some (GActive _) => (ONothing, release (set_gens s (replace_nth g GDone (sc_gens s))))
       | Some (GNew _) => (ONothing, set_gens s (replace_nth g GDone (sc_gens s)))
       | _ => (ONothing, s)
       end
@@ -155,27 +156,28 @@ Definition sched_step (s : sched) (a : action) : outcome * sched :=
       end
   | ARead i =>
       let '(m, s1) := acquire s in
-      if mem_nat m (sc_open s1) then (OValue (cget (sc_data s1) i), release s1) else (OCrash, s1)
+      if read_ok s1 (i + 1) then (OValue (cget (sc_data s1) i), release s1) else (OCrash, s1)
   | AWrite i v =>
       let '(m, s1) := acquire s in
-      if mem_nat m (sc_open s1) then (ONothing, release (set_data s1 (cset (sc_data s1) i v))) else (OCrash, s1)
+      if read_ok s1 (i + 1) then (ONothing, release (set_data s1 (cset (sc_data s1) i v))) else (OCrash, s1)
   | AAccessErr =>
       let '(m, s1) := acquire s in (ORaise, release s1)
   | AOpenFail =>
       match sc_cache s with
       | None => (ORaise, s)
       | Some _ => let '(m, s1) := acquire s in
-                  if mem_nat m (sc_open s1) then (OValue (cget (sc_data s1) 0), release s1) else (OCrash, s1)
+                  if read_ok s1 1 then (OValue (cget (sc_data s1) 0), release s1) else (OCrash, s1)
       end
   | AResize n =>
-      (* _update_len: when the array is open its memory map is renewed for the new length; the old
-         map is not closed, it lives on while a generator still reads from it *)
+      (* _update_len: when the array is open its memory map is renewed for the new length; nobody
+         keeps the old one (generators look the map up at every step), so it is closed *)
       match sc_cache s with
-      | None => (ONothing, mkSched None (sc_open s) (sc_next s) (sc_users s) (sc_gens s) (sc_ctx s) (sc_data s) n)
+      | None => (ONothing, mkSched None (sc_open s) (sc_next s) (sc_users s) (sc_gens s) (sc_ctx s)
+                                   (ctrunc (sc_data s) n) n)
       | Some m =>
           let m' := sc_next s in
-          let rest := if held m (sc_gens s) then sc_open s else remove_nat m (sc_open s) in
-          (ONothing, mkSched (Some m') (m' :: rest) (S m') (sc_users s) (sc_gens s) (sc_ctx s) (sc_data s) n)
+          (ONothing, mkSched (Some m') ((m', n) :: remove_nat m (sc_open s)) (S m') (sc_users s) (sc_gens s)
+                             (sc_ctx s) (ctrunc (sc_data s) n) n)
       end
   end.
 
